@@ -370,6 +370,31 @@ def resume_replays_nothing(sc, o):
     return bad
 
 
+def async_stop_scenarios(rng, n):
+    """a moved device whose stop() is a coroutine that really suspends; the plan itself asks for a pause (or a deferred pause
+    fires at a checkpoint) inside a non-resumable section with a run open: the engine aborts, closes the run 'abort' and ends
+    idle -- the exit block of _run is not torn down by the plan's own pending cancellation"""
+    out = []
+    for _ in range(n):
+        how = rng.choice(["pause-message", "deferred-at-checkpoint", "pause-message-resumable"])
+        body = [M("open_run"), M("checkpoint"), M("set", "m1", rng.randrange(1, 4), group="g"), M("wait", None, group="g")]
+        if how != "pause-message-resumable":
+            body.append(M("clear_checkpoint"))
+        body.append(M("null"))
+        if how == "deferred-at-checkpoint":
+            body += [M("pause", None, defer=True), M("null"), M("checkpoint")]
+        else:
+            body.append(M("pause", None, defer=False))
+        body += [M("null")]
+        if rng.random() < 0.5:
+            body.append(M("close_run"))
+        sc = {"record_interruptions": False, "devices": {"m1": {"kind": "motor", "stoppable": "async"}}, "plan": seq(*body), "script": {},
+              "decisions": [rng.choice(["resume", "abort", "stop", "halt"])], "max_arrivals": 200, "tag": "fault-probe:async-stop",
+              "fault": {"kind": "async-stop-device", "how": how}, "ending": "leave-open"}
+        out.append(number(sc))
+    return out
+
+
 def all_scenarios(rng, n):
     a = close_fault_scenarios(rng, n)
     b = teardown_request_scenarios(rng, max(1, n // 3))
@@ -458,7 +483,7 @@ def callback_exception_policy(sc, o):
     return bad
 
 
-FAMILIES = {"grace-sleep-pause": grace_sleep_pause_scenarios, "stop-dispatch": stop_dispatch_scenarios, "odd-status": odd_status_scenarios, "cross-run-checkpoint": cross_run_checkpoint_scenarios, "list-plan-suspension": list_plan_suspension_scenarios, "pause-hook": pause_hook_scenarios, "close": close_fault_scenarios, "teardown-request": teardown_request_scenarios, "leftover-stage": leftover_stage_scenarios}
+FAMILIES = {"async-stop": async_stop_scenarios, "grace-sleep-pause": grace_sleep_pause_scenarios, "stop-dispatch": stop_dispatch_scenarios, "odd-status": odd_status_scenarios, "cross-run-checkpoint": cross_run_checkpoint_scenarios, "list-plan-suspension": list_plan_suspension_scenarios, "pause-hook": pause_hook_scenarios, "close": close_fault_scenarios, "teardown-request": teardown_request_scenarios, "leftover-stage": leftover_stage_scenarios}
 
 
 def run_probes(ctx, res, judges, families, quick, thorough):
